@@ -11,7 +11,7 @@ from ..worldprop import base_outcome, completion, REAL_VS_STUB  # noqa
 
 np = sut.np
 ID = "C18"
-RUNS = {"quick": 6000, "thorough": 180000}
+RUNS = {"quick": 15000, "thorough": 180000}
 BUDGET = {"quick": 45, "thorough": 780}
 RULE = ("trajectories of generated worlds (heterogeneous voltages, three-phase mixed-sign constraints, all parties, crash+rerun); "
         "after each run every analysis function is recomputed in plain Python from the recorded rates, the scenario's voltages / "
